@@ -133,6 +133,58 @@ fn routes(xs: &[RV], t: &RV) -> Vec<(&'static str, Value)> {
         acc = Value::cons(x.clone(), acc);
     }
     out.push(("Value::cons", acc));
+    // 6 the mutators: a chain of placeholder cells filled in through set_car / set_cdr, and
+    //   through the car_mut / cdr_mut references
+    if !xv.is_empty() {
+        for by_ref in [false, true] {
+            let mut acc = Value::Null;
+            for _ in 0..xv.len() {
+                acc = Value::Cons(Cons::new(Value::Nil, acc));
+            }
+            {
+                let mut cell = acc.as_cons_mut().unwrap();
+                for (i, x) in xv.iter().enumerate() {
+                    if by_ref {
+                        *cell.car_mut() = x.clone();
+                    } else {
+                        cell.set_car(x.clone());
+                    }
+                    if i + 1 == xv.len() {
+                        if by_ref {
+                            *cell.cdr_mut() = tv.clone();
+                        } else {
+                            cell.set_cdr(tv.clone());
+                        }
+                        break;
+                    }
+                    cell = cell.cdr_mut().as_cons_mut().unwrap();
+                }
+            }
+            out.push((if by_ref { "car_mut/cdr_mut" } else { "set_car/set_cdr" }, acc));
+        }
+        // 7 the consuming iterator's peek_mut: every cell rewritten in place before it is taken
+        let mut acc = Value::Null;
+        for _ in 0..xv.len() {
+            acc = Value::Cons(Cons::new(Value::Nil, acc));
+        }
+        if let Value::Cons(c) = acc {
+            let mut it = c.into_iter();
+            let mut items: Vec<Value> = Vec::new();
+            let mut k = 0;
+            loop {
+                match it.peek_mut() {
+                    Some(cell) => cell.set_car(xv[k.min(xv.len() - 1)].clone()),
+                    None => break,
+                }
+                match it.next() {
+                    Some((car, _)) => items.push(car),
+                    None => break,
+                }
+                k += 1;
+            }
+            out.push(("IntoIter::peek_mut", Value::append(items, tv.clone())));
+        }
+    }
     out
 }
 
@@ -270,6 +322,29 @@ fn check_list(v: &mut V, xs: &[RV], t: &RV, check_routes: bool) {
     let (iv, it) = cell.clone().into_vec();
     if iv.iter().map(RV::from_value).collect::<Vec<_>>() != mx || RV::from_value(&it) != mt {
         v.fail("Cons::into_vec", format!("tail {}", RV::from_value(&it)));
+    }
+    // into_pair, cell by cell
+    {
+        let mut cur = val.clone();
+        let mut got: Vec<RV> = Vec::new();
+        loop {
+            match cur {
+                Value::Cons(c) => {
+                    let (a, d) = c.into_pair();
+                    got.push(RV::from_value(&a));
+                    cur = d;
+                    if got.len() > n + 2 {
+                        break;
+                    }
+                }
+                other => {
+                    if got != mx || RV::from_value(&other) != mt {
+                        v.fail("Cons::into_pair", format!("walk by into_pair gives {} elements and tail {}", got.len(), RV::from_value(&other)));
+                    }
+                    break;
+                }
+            }
+        }
     }
     // cell iteration
     let mut cnt = 0usize;
